@@ -304,6 +304,21 @@ func run(e *core.Env) {
 			fl := prevOut[tp.Intn(len(prevOut))]
 			si, proto, sport, dport = fl.si, fl.proto, fl.dport, fl.sport
 			e.Probe("inbound_mirrors_local_packet_of_R")
+		case mode == 2 && len(prevIn) > 0:
+			// an earlier inbound packet with exactly one component changed: the same router from
+			// the same source port to another port (drawn above), another router on the same
+			// ports, or another protocol - a verdict remembered for one 5-tuple says nothing
+			// about its neighbours
+			fl := prevIn[tp.Intn(len(prevIn))]
+			switch tp.Intn(4) {
+			case 0, 1:
+				si, proto, sport = fl.si, fl.proto, fl.sport
+			case 2:
+				proto, sport, dport = fl.proto, fl.sport, fl.dport
+			default:
+				si, sport, dport = fl.si, fl.sport, fl.dport
+			}
+			e.Probe("inbound_next_to_an_earlier_tuple")
 		}
 		sender := nodes[si]
 		innerSrc, innerDst := sender.IP, R.IP
